@@ -795,10 +795,13 @@ func genStrs(rng *rand.Rand, n, kind, fixed int) []string {
 }
 
 func run(c *core.Ctx) {
-	dictBulk(c)
-	dictLife(c)
-	dictFile(c)
-	if os.Getenv("C04_ONLY") == "dict" { // development aid: only the dictionary scenarios
+	// development aid: C04_ONLY=dict runs only the dictionary scenarios, C04_ONLY=enc skips them
+	if os.Getenv("C04_ONLY") != "enc" {
+		dictBulk(c)
+		dictLife(c)
+		dictFile(c)
+	}
+	if os.Getenv("C04_ONLY") == "dict" {
 		return
 	}
 	c.Res.Rule = "per (encoding, type): sequences from length buckets {0,1,2,3,7,8,9,15..17,31..33,63..65,127..130,255..258,1000,1025} x value patterns (constant, ramp, extremes, alternating, random full range, small runs; levels: constant, long runs, width-filling, group patterns; byte strings: shared prefixes, empty/long, identical, small alphabet), all RLE bit widths 0..8 (levels) and 0..32 (int32), an exhaustive sweep of all sequences of length <= 4 over {min,-1,0,1,max} for the delta encodings; destination buffers nil / dirty / oversized / reused. Checked per case: Go bytes == model bytes, Go decode(Go bytes) == input, specification decoder(Go bytes) == input. Non-trivial = at least 2 values; distinct by the JSON of the case. Dictionaries (dict.go): per dictionary kind, every short history of {Reset, Insert} calls on empty and pre-populated dictionaries and random long ones (Index/Lookup/Bounds/Page of the returned indexes against the inserted values; non-trivial = two inserts around a reset, or an insert into a pre-populated dictionary), and files/buffers of 2..4 row groups written through WriteRows and typed rows with and without fallback to PLAIN (non-trivial = at least 2 row groups actually written, and the fallback actually taken when a size limit is set)."
